@@ -1,6 +1,7 @@
 import Nstd.Life.LemmasAll
 import Nstd.Life.LemmasAlias
 import Nstd.Life.LemmasOps
+import Nstd.Life.LemmasSrc
 /-
   Property theorems of the Life area.
 
@@ -142,6 +143,59 @@ theorem list_insert_self_as_if_copied (ops : List Op) (v : Nat) (hv : v ≤ 1)
         absNode (run init ops) ⟨.L, v⟩ ++
         (absNode (run init ops) ⟨.L, v⟩).drop (pos.getD (absNode (run init ops) ⟨.L, v⟩).length) :=
   lInsertSelf_abs (reach_ok ops).1 v hv ha pos hp
+
+/-- C04 `ref_arg_as_if_copied` (micro-step level, every state): a step whose source operand is a reference
+    `r` to an object with payload p - an element of the container itself, `m.insert(k, *m.find(k2))`,
+    `l.insert(pos, *it)`, `s.append(*it)`, `a[i] = a[j]`, `l.remove(*it)` ... - leads to the same memory, blocks
+    and containers as the same step applied to a temporary copy `.ext p` of that object (`StEq` = equal up to
+    the log, where only the named source differs); it faults iff the other does. -/
+theorem ref_arg_as_if_copied (st : State) (r : SrcRef) (l : Loc) (p : Nat)
+    (hr : resolve st r = some (some l, some p)) :
+    (∀ c pos k, OptEq (exec st (.put c pos k (some r))) (exec st (.put c pos k (some (.ext p))))) ∧
+    (∀ c pos v, OptEq (exec st (.put c pos (some r) v)) (exec st (.put c pos (some (.ext p)) v))) ∧
+    (∀ c j, OptEq (exec st (.assignVal c j r)) (exec st (.assignVal c j (.ext p)))) ∧
+    (∀ c, exec st (.removeKey c r) = exec st (.removeKey c (.ext p))) ∧
+    (∀ c, exec st (.removeVal c r) = exec st (.removeVal c (.ext p))) ∧
+    (∀ a, OptEq (exec st (.aPush a r)) (exec st (.aPush a (.ext p)))) ∧
+    (∀ a j, OptEq (exec st (.aAssign a j r)) (exec st (.aAssign a j (.ext p)))) :=
+  ⟨fun c pos k => put_value_as_if_copied st c pos k r l p hr, fun c pos v => put_key_as_if_copied st c pos v r l p hr,
+   fun c j => assignVal_as_if_copied st c j r l p hr, fun c => removeKey_as_if_copied st c r l p hr,
+   fun c => removeVal_as_if_copied st c r l p hr, fun a => aPush_as_if_copied st a r l p hr,
+   fun a j => aAssign_as_if_copied st a j r l p hr⟩
+
+/-- operation level: `m.insert(k, *it_i)` (Map, MultiMap), `h.append(k, *it_i)` (HashMap), `l.insert(pos, *it_i)`
+    (List) with `it_i` an element of the container itself equal the same call with a copy x of that element. -/
+theorem map_insert_own_value_as_if_copied (st : State) (c : Var) (k i x : Nat) (l : Loc)
+    (hr : resolve st (.item c i 1) = some (some l, some x)) :
+    ResEq (stepRes st (.mInsertRef c k i)) (stepRes st (.mInsert c k x)) := by
+  have hi := item_index_lt hr
+  by_cases hg : (c.v ≤ 1 ∧ (c.k = .M ∨ c.k = .U))
+  · exact stepRes_single (m1 := .put c none (some (.ext k)) (some (.item c i 1))) (m2 := .put c none (some (.ext k)) (some (.ext x)))
+      (by simp [compile, guard', hg, len, hi]) (by simp [compile, guard', hg])
+      (put_value_as_if_copied st c none _ _ l x hr)
+  · simp [stepRes, compile, guard', hg, ResEq]
+
+theorem hash_append_own_value_as_if_copied (st : State) (v k i x : Nat) (l : Loc)
+    (hr : resolve st (.item ⟨.H, v⟩ i 1) = some (some l, some x)) :
+    ResEq (stepRes st (.hAppendRef v k i)) (stepRes st (.hInsert v none k x)) := by
+  have hi := item_index_lt hr
+  by_cases hg : v ≤ 1
+  · exact stepRes_single (m1 := .put ⟨.H, v⟩ none (some (.ext k)) (some (.item ⟨.H, v⟩ i 1)))
+      (m2 := .put ⟨.H, v⟩ none (some (.ext k)) (some (.ext x)))
+      (by simp [compile, guard', hg, len, hi]) (by simp [compile, guard', hg])
+      (put_value_as_if_copied st _ none _ _ l x hr)
+  · simp [stepRes, compile, guard', hg, ResEq]
+
+theorem list_insert_own_element_as_if_copied (st : State) (v : Nat) (pos : Option Nat) (i x : Nat) (l : Loc)
+    (hr : resolve st (.item ⟨.L, v⟩ i 1) = some (some l, some x)) :
+    ResEq (stepRes st (.lInsertRef v pos i)) (stepRes st (.lInsert v pos x)) := by
+  have hi := item_index_lt hr
+  by_cases hg : (v ≤ 1 ∧ pos.getD 0 ≤ len st ⟨.L, v⟩)
+  · exact stepRes_single (m1 := .put ⟨.L, v⟩ pos none (some (.item ⟨.L, v⟩ i 1))) (m2 := .put ⟨.L, v⟩ pos none (some (.ext x)))
+      (by have := hg.2; simp only [len] at this; simp [compile, guard', hg.1, len, hi, this])
+      (by simp [compile, guard', hg])
+      (put_value_as_if_copied st _ pos _ _ l x hr)
+  · simp [stepRes, compile, guard', hg, ResEq]
 
 /-- non-vacuity of the alias theorems: a reachable state with a full array (size 3 = capacity 3) and a list -/
 def aliasOps : List Op := [.aAppend 0 5, .aAppend 0 6, .aAppend 0 7, .lInsert 0 none 1, .lInsert 0 none 2]
